@@ -17,7 +17,7 @@ META = {
             "nodes wrap exactly one token (C07/N1). One obligation per constructor site / aggregate. A6 = C13/D6 (the analysis is told about every file the store adds or removes); A7 = C13/D10; A9 = C13/D4; A8 = C13/D9 (the analysis receives the last text recorded for a file, the one the store converts with).",
     "explanation": "A range read off a node or token of parse(file) lies inside that file and on character boundaries by C01 (the tree "
                    "is lossless). So it suffices that every range the analysis reports is such a range, paired with the right file. "
-                   "That is a who-may-construct rule over the resolved MIR, checked for every site; conversion to LSP positions is C14.",
+                   "That is a who-may-construct rule over the resolved MIR, checked for every site; conversion to LSP positions is C14. A11 = C14 U12 (engine U). A12 = C14 U9 (the announced position encoding is the implemented one).",
     "not_decided": "ranges after conversion to (line, UTF-16 column) (C14); that every reported file belongs to the workspace.",
     "trusted_base": ["rowan: text_range() of a node/token of a tree lies inside the text the tree was built from", "C01 (losslessness)"],
     "assumptions": [],
